@@ -246,8 +246,13 @@ def run_one(cfg, tape, want_trace=False):
             for m in prog['models']:
                 if m not in all_models:
                     all_models.append(m)
-            k = Kernel(tape, policy=policy, max_steps=20000, pct_depth=1 + tape.draw(3, 'pct.depth'),
-                       pct_span=600, log_events=want_trace)
+            # one class of runs pre-empts at every line of workflows/hashing.py too: two threads of
+            # one process computing database keys at the same time (the key must not depend on
+            # how they interleave)
+            trace = (base._P['hashing_path'],) if cfg.get('line_hashing') else ()
+            k = Kernel(tape, policy=policy, max_steps=60000 if trace else 20000,
+                       pct_depth=1 + tape.draw(3, 'pct.depth'), pct_span=600, log_events=want_trace,
+                       trace_files=trace)
             faults = FsFaults(tape, cfg.get('fault', 'none') if phase == 0 or cfg.get('fault') == 'mix'
                               else 'none', stats)
             faults.kernel = k
